@@ -48,6 +48,9 @@ namespace wc
             { "Content-Encoding", "gzip", [](Http::Header::Collection& h) { h.add<Http::Header::ContentEncoding>(Http::Header::Encoding::Gzip); } },
             { "Allow", "GET, POST", [](Http::Header::Collection& h) { h.add<Http::Header::Allow>(std::vector<Http::Method> { Http::Method::Get, Http::Method::Post }); } },
             { "X-Trace-Id", "ff", [](Http::Header::Collection& h) { h.add<XTraceId>(255u); } },
+            // index 8, used by streamed responses only (C05 case B): a transfer coding of the handler's own; the framework's
+            // "chunked" must still be announced, as the final coding (two Transfer-Encoding lines read as one list, RFC 7230 3.2.2)
+            { "Transfer-Encoding", "gzip", [](Http::Header::Collection& h) { h.add<Http::Header::TransferEncoding>(Http::Header::Encoding::Gzip); } },
         };
         return v;
     }
